@@ -150,6 +150,8 @@ func runC19(c *Ctx) {
 		for _, site := range s.Find(f, "call:(*Conn).handle") {
 			c.obUnreach("dispatch", site, `(*Conn).readLine(param1)#1 != nil`)
 		}
+		// ... and the loop ends there: the limiter's refusal is sticky, so reading again would answer 500 forever
+		c.obNever("no further read after the 500 for a too long line", f, c.direct("reply:500"), lineReads, nil, nil)
 	}
 
 	ruleConstIndexGuarded(c)
